@@ -19,8 +19,11 @@ def run(ctx):
     notes = []
     # ZZV_LOCKRACE: rounds of the deterministic teardown-vs-return-data driver per exit kind and topology;
     # ZZV_RACE: tunnels of the statistical one (destination writes continuously, ingress closes / resets)
+    # ZZV_DGLOCK: rounds of the deterministic UDP teardown-vs-reply driver; ZZV_DGRACE: rounds of the statistical ones
+    # (UDP association, both ICMP ingress paths: the destination keeps replying while the ingress closes)
     T = K.run_traces(ctx, {"ZZV_LOCKRACE": 2 if ctx.quick() else 6, "ZZV_RACE": 40 if ctx.quick() else 1500,
-                           "ZZV_RACE_SAMPLE": 6 if ctx.quick() else 30})
+                           "ZZV_RACE_SAMPLE": 6 if ctx.quick() else 30,
+                           "ZZV_DGLOCK": 2 if ctx.quick() else 6, "ZZV_DGRACE": 8 if ctx.quick() else 60})
     notes.append(T["note"])
 
     def relevant(ev, kind, prior):
@@ -28,7 +31,7 @@ def run(ctx):
             return "KeyAgreement:third-key-holder:%s:%s" % (kind, ev.get("agent"))
         if ev["ev"] == "Data":
             what = "marker" if ev.get("marker") else ("unsealed" if not ev.get("sealed") else "altered")
-            return "KeyAgreement:data-%s:%s:%s" % (what, kind, ev.get("dir"))
+            return "KeyAgreement:data-%s:%s:%s%s" % (what, kind, ev.get("dir"), ":after-close" if ev.get("afterclose") else "")
         if ev["ev"] == "Recv":
             return "KeyAgreement:data-altered:%s:recv" % kind
         if ev["ev"] in ("Open", "Ack") and ev.get("degenerate"):
@@ -68,9 +71,12 @@ def run(ctx):
         race_tunnels += 1 if tr.get("race") else 0
         zero_key += tr.get("zerokey", 0)
         if tr["sealed"] != tr["data"] or tr["marker"]:
-            ctx.finding("KeyAgreement:frames-not-sealed-under-tunnel-key:%s%s" % (tr["kind"], ":all-zero-key" if tr.get("zerokey") else ""),
+            after = tr.get("unsealed_after_close", 0) == tr["data"] - tr["sealed"] and tr["data"] > tr["sealed"]
+            ctx.finding("KeyAgreement:frames-not-sealed-under-tunnel-key:%s%s%s" % (tr["kind"], ":all-zero-key" if tr.get("zerokey") else "",
+                                                                                  ":after-close" if after else ""),
                         "%s tunnel (rid %s, %d transit(s)): %d of %d data-carrying frames on the links do not open under the tunnel's key"
-                        "%s%s" % (tr["kind"], tr["rid"], tr["nt"], tr["data"] - tr["sealed"], tr["data"],
+                        "%s%s%s" % (tr["kind"], tr["rid"], tr["nt"], tr["data"] - tr["sealed"], tr["data"],
+                                    " (all of them written after the tunnel's CLOSE was on the wire)" if after else "",
                                   (", %d of them open under the ALL-ZERO key" % tr["zerokey"]) if tr.get("zerokey") else "",
                                   (", %d contain the plaintext marker" % tr["marker"]) if tr["marker"] else ""), tr)
         for fld, what in (("deg_open", "OPEN"), ("deg_ack", "ACK")):
